@@ -279,6 +279,16 @@ def s3(chk: Check, proj: Project, w) -> None:
     same = len({norm(c.func.value) for c in ups}) == 1 if ups else False  # type: ignore[union-attr]
     ok = len(ups) == 2 and same and order[0][0] and order[1][1]
     chk.ob("S3", "attributes:HtmlAttrsNode.render:defaults-then-attrs", m.loc(ups[0]) if ups else m.loc(f), ok, "update(defaults) precedes update(attrs) on the same dict" if ok else "defaults are not merged before attrs (attrs would not override defaults)")
+    # attrs overrides defaults with ALL of its entries: a None / False in attrs is how a default is switched off
+    if len(ups) == 2 and ups[1].args:
+        a1 = ups[1].args[0]
+        filt = [x for x in ast.walk(a1) if isinstance(x, (ast.DictComp, ast.ListComp, ast.GeneratorExp, ast.SetComp)) and any(g.ifs for g in x.generators)] + [x for x in ast.walk(a1) if isinstance(x, ast.Call) and norm(x.func) == "filter"]
+        ap_name = params(f)[2] if len(params(f)) > 2 else "attrs"
+        prefilt = [st for st, v in assignments(f, ap_name) if v is not None and st.lineno < ups[1].lineno]
+        bad = filt or prefilt
+        chk.ob("S3", "attributes:HtmlAttrsNode.render:attrs-override-unfiltered", m.loc(bad[0]) if bad else m.loc(ups[1]), not bad,
+               "every entry of attrs overrides the default of the same name, whatever its value" if not bad else
+               f"`{short(bad[0])}` drops entries of attrs before they override defaults: `defaults:disabled=True attrs:disabled=False` (or None) can no longer switch the default off - the attribute is rendered although the caller turned it off")
     ap = calls(f, "append_attributes")
     ok2 = False
     if ap and ups:
